@@ -428,71 +428,99 @@ def model_isinstance(x, t):
 
 
 class SRelDelta:
-    """dateutil.relativedelta with symbolic (integral) amounts: years/months first with day clamp,
-    then the timedelta part (the documented algorithm)."""
+    """dateutil.relativedelta(**relative amounts) with symbolic integral amounts, following
+    dateutil's own algorithm (2.9): __init__ sums weeks into days and _fix() carries |months| > 11
+    into years; __radd__ applies years, then months with a single wrap, clamps the day to the month's
+    length, `replace()`s (ValueError outside 1..9999) and finally adds the timedelta part.
+    ASSUME: cross-checked against the real dateutil on a grid (tools/selftest.py)."""
 
     def __init__(self, years=0, months=0, days=0, weeks=0, hours=0, minutes=0, seconds=0,
                  microseconds=0, leapdays=0, **absolute):
         if absolute or leapdays:
             raise Unsupported("relativedelta absolute fields / leapdays")
-        # non-integral years/months raise ValueError in dateutil; integral floats are fine
-        self.years, self.months = years, months
-        self.us = ((((weeks * 7 + days) * 24 + hours) * 60 + minutes) * 60 + seconds) * 1000000 \
-            + microseconds
-        # dateutil normalises months into years with sign handling (_fix)
-        m = self.months
-        if isinstance(m, int) and isinstance(self.years, int):
-            s = 1 if m >= 0 else -1
-            q, r = divmod(abs(m), 12)
-            self.years += q * s
+        for v in (years, months):
+            if isinstance(v, float) and v != int(v):
+                raise ValueError("Non-integer years and months are ambiguous and not currently "
+                                 "supported.")
+        for v in (years, months, days, weeks, hours, minutes, seconds, microseconds):
+            if isinstance(v, Sym) and not isinstance(v, SInt):
+                raise Unsupported("relativedelta amount of type %s" % type(v).__name__)
+            if isinstance(v, float) and v != int(v):
+                raise Unsupported("fractional relativedelta amount next to symbolic ones")
+        if isinstance(months, SInt) or isinstance(years, SInt):
+            # symbolic amounts: non-negative counts only (what the callers under contract produce)
+            if not (months >= 0) or not (years >= 0):
+                raise Unsupported("negative symbolic years/months in relativedelta()")
+            self.years = years + months // 12
+            self.months = months % 12
+        else:
+            years, months = int(years), int(months)
+            s = 1 if months >= 0 else -1
+            q, r = divmod(abs(months), 12)
+            self.years = years + q * s
             self.months = r * s
-        tot = self.years * 12 + self.months
-        self.total_months = tot
+        self.days = weeks * 7 + days
+        self.tus = ((hours * 60 + minutes) * 60 + seconds) * 1000000 + microseconds
+        self.us = self.days * cal.US_DAY + self.tus
 
     def __bool__(self):
         return True
 
     def __neg__(self):
         r = SRelDelta.__new__(SRelDelta)
-        r.years, r.months, r.us, r.total_months = -self.years, -self.months, -self.us, \
-            -self.total_months
+        r.years, r.months, r.us = -self.years, -self.months, -self.us
+        r.days, r.tus = -self.days, -self.tus
         return r
 
-    def _apply(self, dt, sign):
+    def _apply(self, dt):
         import z3
 
-        from .core import cur, mk_int, toint_z3
+        from .core import mk_int, toint_z3
 
         y, m, d, H, M, S, us = cal.dt_fields(dt)
-        tm = self.total_months * sign
-        if not (isinstance(tm, int) and tm == 0):
-            # month arithmetic on 12*y + (m-1)
-            lin = y * 12 + (m - 1) + tm
-            ny = lin // 12
-            nm = lin % 12 + 1
-            # dateutil: year = self.year + other.years (+/-1 carry); replace() validates the year
-            if not (1 <= ny) or not (ny <= 9999):
+        year = y + self.years
+        month = m
+        if not (isinstance(self.months, int) and self.months == 0):
+            month = m + self.months
+            if isinstance(month, int) and isinstance(year, int):
+                if month > 12:
+                    year += 1
+                    month -= 12
+                elif month < 1:
+                    year -= 1
+                    month += 12
+            else:
+                zm, zy = toint_z3(month), toint_z3(year)
+                year = mk_int(z3.If(zm > 12, zy + 1, z3.If(zm < 1, zy - 1, zy)))
+                month = mk_int(z3.If(zm > 12, zm - 12, z3.If(zm < 1, zm + 12, zm)))
+        changed = not (isinstance(self.years, int) and self.years == 0
+                       and isinstance(self.months, int) and self.months == 0)
+        if changed:
+            # day = min(calendar.monthrange(year, month)[1], dt.day); dt.replace(year, month, day)
+            if not cal._rng(1, year, 9999):
+                # calendar.monthrange accepts any year; replace() raises
                 raise ValueError("year %s is out of range" % "<sym>")
-            dm = cal.dim(ny, nm)
+            dm = cal.dim(year, month)
             if isinstance(d, int) and isinstance(dm, int):
                 nd = min(d, dm)
             else:
                 nd = mk_int(z3.If(toint_z3(d) <= toint_z3(dm), toint_z3(d), toint_z3(dm)))
-            dt = cal._raw_datetime(ny, nm, nd, H, M, S, us, cal.dt_tz(dt))
-        delta = self.us * sign
+            dt = cal._raw_datetime(year, month, nd, H, M, S, us, cal.dt_tz(dt))
+        delta = self.us
         if isinstance(delta, int) and delta == 0:
             return dt
-        # timedelta(...) construction itself overflows beyond 999999999 days
         lim = 999999999 * cal.US_DAY
-        if not (delta <= lim) or not (delta >= -lim):
+        if not cal._rng(-lim, delta, lim):
             raise OverflowError("days=%s; must have magnitude <= 999999999" % "<sym>")
+        if isinstance(self.tus, int) and self.tus == 0:
+            return cal.shift_days(dt, self.days)  # whole days: pure ordinal arithmetic
         return cal.shift_datetime(dt, delta)
 
     def __radd__(self, dt):
         import datetime as _dt
 
         if isinstance(dt, (cal.SDateTime, _dt.datetime)):
-            return self._apply(dt, 1)
+            return self._apply(dt)
         return NotImplemented
 
     __add__ = __radd__
@@ -501,7 +529,7 @@ class SRelDelta:
         import datetime as _dt
 
         if isinstance(dt, (cal.SDateTime, _dt.datetime)):
-            return self._apply(dt, -1)
+            return (-self)._apply(dt)
         return NotImplemented
 
 
